@@ -12,7 +12,11 @@ for version in [None, "gfa1", "gfa2"]:
   for txt in ["S\tA\t*\n\n", "\nS\tA\t*", "S\tA\t*\n\nS\tB\t*", ""]:
     if version == "gfa2":
       txt = txt.replace("\t*", "\t1\t*")
-    expect_format_error(lambda: gfapy.Gfa(txt, version=version), repr((version, txt)))
+    if txt != "":
+      expect_format_error(lambda: gfapy.Gfa(txt, version=version), repr((version, txt)))
+    else:
+      # the empty string is the empty document (what str() of an empty Gfa writes), not a document of one empty line
+      assert gfapy.Gfa(txt, version=version).lines == []
     expect_format_error(lambda: gfapy.Gfa(txt.split("\n"), version=version), repr((version, txt)))
     fd, path = tempfile.mkstemp()
     with os.fdopen(fd, "w") as f:
